@@ -187,4 +187,16 @@ CHECKS = {
         "note": STD_NOTE + " PARTIAL by nature: the wall-clock clause ('every query on <= 64 KiB completes within seconds') is a run-time fact; it is measured on five 64 KiB worst cases per run (10 s limit), not proved.",
         "technique": "Coq proof (termination measures, fuel independence, item bounds) + adversarial correspondence with watchdog + timed 64 KiB cases",
     },
+    "C01": {
+        "text": "Coq theorems that no entry point of the slice-parser model reaches a Panic result (the model has an explicit Panic branch, "
+                "guarded by the exact failing condition, at every site where the Rust code could panic: unchecked arithmetic under overflow "
+                "checks, indexing, split_at, unwrap/expect, % by a length): C01_integers, C01_structures (all 17 ParseAt types + header tail, "
+                "any offset), C01_tables_and_strings (any index/offset incl. overflowing products), C01_notes (any alignment), C01_hash "
+                "(construction and lookup on arbitrary bytes: nbloom = 0, empty buckets, nshift >= 32, chain_start < symoffset guarded), "
+                "C01_versions (the four iterators from ANY state), C01_version_queries, C01_ident (any length), C01_file (minimal_parse and "
+                "all 14 accessors with arbitrary caller-supplied headers). For every buffer of at most isize::MAX bytes. Tie: the union of "
+                "all other generators + boundary arguments; harness built with overflow-checks and debug-assertions, catch_unwind per call.",
+        "note": STD_NOTE + " The correspondence of the Panic sites themselves (that the model has a Panic branch wherever the code can panic) is what the differential check validates: the harness reports PANIC with the message, and a panic the model does not predict is a violation with the input as replay.",
+        "technique": "Coq proof (no-Panic, compositional over the result monad) + differential correspondence with panic capture",
+    },
 }
